@@ -112,7 +112,7 @@ impl Family for IllTyped {
         &["C03", "C04"]
     }
     fn rule(&self) -> &'static str {
-        "22 typed positions (operator operands, annotated let, parameters, conditions, return position, struct field, constructor payload, array element/index/set, ref_set, vec_push, branches, closure/method/generic arguments) x 10 expressions of different types (the well-typed one must be accepted, the other nine rejected by the typer); 18 structural errors (array length in annotation/param/return, unknown/missing/extra field, call and constructor arity, tuple projection range, pattern arity/type, calling a non-function, unknown type/variant); operator domain: 12 binary + 2 unary operators x 13 operand types (accepted iff inside the documented domain). non-trivial = ill-typed variants; distinct = distinct source text"
+        "22 typed positions (operator operands, annotated let, parameters, conditions, return position, struct field, constructor payload, array element/index/set, ref_set, vec_push, branches, closure/method/generic arguments) x 10 expressions of different types (the well-typed one must be accepted, the other nine rejected by the typer); 18 structural errors (array length in annotation/param/return, unknown/missing/extra field, call and constructor arity, tuple projection range, pattern arity/type, calling a non-function, unknown type/variant); operator domain: 12 binary + 2 unary operators x 13 operand types, written directly and inside a generic function instantiated at the type (accepted iff inside the documented domain). non-trivial = ill-typed variants; distinct = distinct source text"
     }
     fn cases(&self, _tier: Tier) -> Box<dyn Iterator<Item = Value> + '_> {
         let mut v = Vec::new();
@@ -130,6 +130,14 @@ impl Family for IllTyped {
             }
             v.push(json!({"kind": "operator", "op": "neg", "ty": t}));
             v.push(json!({"kind": "operator", "op": "not", "ty": t}));
+        }
+        // the same table with the operator inside a generic function instantiated at the type
+        for (t, _, _, _) in OPTYPES {
+            for op in BINOPS {
+                v.push(json!({"kind": "operator", "op": op, "ty": t, "route": "generic"}));
+            }
+            v.push(json!({"kind": "operator", "op": "neg", "ty": t, "route": "generic"}));
+            v.push(json!({"kind": "operator", "op": "not", "ty": t, "route": "generic"}));
         }
         Box::new(v.into_iter())
     }
@@ -162,11 +170,22 @@ impl Family for IllTyped {
                     "not" => "!a".to_string(),
                     o => format!("a {} b", o),
                 };
-                (
-                    format!("{}fn main() {{ let a: {} = {}; let b: {} = {}; let r = {}; string_println(\"x\") }}\n", PRELUDE, ann, v1, ann, v2, expr),
-                    in_domain(op, ty),
-                    format!("operator={};ty={}", op, ty),
-                )
+                if case["route"] == "generic" {
+                    let ret = if matches!(op, "<" | ">" | "<=" | ">=" | "==" | "!=" | "&&" | "||" | "not") { "bool" } else { "T" };
+                    let g = if matches!(op, "neg" | "not") { format!("fn g[T](a: T) -> {} {{ {} }}", ret, expr) } else { format!("fn g[T](a: T, b: T) -> {} {{ {} }}", ret, expr) };
+                    let call = if matches!(op, "neg" | "not") { "g(a)" } else { "g(a, b)" };
+                    (
+                        format!("{}{}\nfn main() {{ let a: {} = {}; let b: {} = {}; let r = {}; string_println(\"x\") }}\n", PRELUDE, g, ann, v1, ann, v2, call),
+                        in_domain(op, ty),
+                        format!("operator={};ty={};route=generic", op, ty),
+                    )
+                } else {
+                    (
+                        format!("{}fn main() {{ let a: {} = {}; let b: {} = {}; let r = {}; string_println(\"x\") }}\n", PRELUDE, ann, v1, ann, v2, expr),
+                        in_domain(op, ty),
+                        format!("operator={};ty={}", op, ty),
+                    )
+                }
             }
         };
         if !should_accept {
